@@ -761,6 +761,9 @@ def main(tier: str) -> int:
         "#show_private_command, labels outside int32, Trigger.setup / RightClick.setup (other callers of parse_switch)",
         "C06_bst_exact assumes case bodies leave __switch__N unchanged (a body that re-enters the same switch by recursion "
         "does not; see reentrancy_probe in the evidence)",
+        "statements of case bodies: say, break, `$x = k`, `g();` (a call of another user function of the pack), nested switch / "
+        "Hardcode.switch (also inside a Hardcode.switch body, which is compiled once per index); user functions are compiled in source "
+        "order with the counters threaded through (Model.Switch.compile_functions)",
         "mcvm.py (untrusted Python VM) and the source-level interpreter in c06.py are used only to search for failing inputs",
     ]
     ck.proof(extra_targets=["Run/C06.vo"])
@@ -836,9 +839,11 @@ def main(tier: str) -> int:
                     for c in cases})
     ck.cov.update(dict(
         evaluations=len(cases), distinct_nontrivial=distinct,
-        rule="a case = one compiled program (function f containing switch / Hardcode.switch statements); distinct = distinct "
-             "(program, pack_format, #forcebst, jmc.txt names, namespace); every case reaches parse_switch or one of the "
-             "label-rule rejections, so all are non-trivial",
+        rule="a case = one compiled pack (function f, possibly further user functions, containing switch / Hardcode.switch statements); "
+             "distinct = distinct (program, pack_format, #forcebst, jmc.txt names, namespace); every case reaches parse_switch or one of the "
+             "label-rule rejections, so all are non-trivial.  Stream H (round 2): two dispatches on the SAME score, the inner one reached from a "
+             "case body of the outer one (inline / through a called function defined before or after / Hardcode.switch on either side / three "
+             "levels / siblings), the body changing the score first",
         samples=[dict(src=job_of(c)["src"], pack_format=c["pf"], forcebst=c["fb"]) for c in (cases[0], cases[40], cases[-1])],
         programs=len(cases), disagreements_checked=len(bad), semantic_programs=n_runs,
         branch_histogram=hist, strategy_histogram=strat, regenerated_VANILLA_MACRO=thr,
